@@ -155,8 +155,15 @@ def run_C08(ctx, E):
     stage_mc_only(ctx, E, "repaired", "C08_MC", "C08_MC_repaired.cfg")
     stage_expect_violation(ctx, E, "asbuilt_pristine", "C08_MC", "C08_MC_asbuilt_pristine.cfg", "Pristine")
     stage_expect_violation(ctx, E, "asbuilt_indep", "C08_MC", "C08_MC_asbuilt_indep.cfg", "Independence")
+    stage_mc_only(ctx, E, "conc", "C08_Conc", "C08_Conc.cfg")
+    stage_expect_violation(ctx, E, "conc_shared", "C08_Conc", "C08_Conc_shared.cfg",
+                           "RaceFree (hypothetical layout in which tables 1 and 11 share their cells)")
     stage_mc_replay(ctx, E, "session", "C08_MC", "C08_MC_%s.cfg" % ctx.tier, heap="24g")
-    stage_record_trace(ctx, E, "hist", "C08_Trace", "C08_Trace.cfg", heap="16g")
+    drv = ctx.drv
+    if ctx.tier == "thorough" or os.environ.get("VERIF_FORCE_RACE"):
+        drv = E.build_driver(ctx.work, race=True)   # concurrent re-weighting under the race detector
+    stage_record_trace(ctx, E, "hist", "C08_Trace", "C08_Trace.cfg", heap="16g", drv=drv,
+                       env={"GORACE": "exitcode=66 halt_on_error=1"})
 
 
 def run_C07(ctx, E):
